@@ -8,7 +8,6 @@ import (
 
 	"github.com/cockroachdb/pebble/internal/base"
 	"github.com/cockroachdb/pebble/sstable"
-	"github.com/cockroachdb/pebble/verifharness/evid"
 )
 
 // Operation kinds of the point-iterator interpreter.
@@ -143,7 +142,19 @@ func (m *iterModel) canPrev() bool {
 func (m *iterModel) canNextPrefix() bool {
 	// iterator.go:188-191: not after a reverse op, not after a forward op that
 	// returned nil, not in prefix iteration mode.
-	return m.positioned && !m.noRel && !m.prefixMode && m.dir > 0 && m.valid
+	if !(m.positioned && !m.noRel && !m.prefixMode && m.dir > 0 && m.valid) {
+		return false
+	}
+	// NextPrefix is not issued while the iterator's upper bound is a versioned
+	// (suffixed) key: the only real caller bars it (pebble iterator.go
+	// processBounds: "Setting an upper bound that is a versioned MVCC key ...
+	// causes significant complications for NextPrefix, so we bar the user of
+	// NextPrefix"; Iterator.NextPrefix then fails without touching the internal
+	// iterators). With a bare-prefix upper bound NextPrefix cannot jump over
+	// entries >= the bound. The upper bound of a *virtual table* may be
+	// suffixed: pebble.Iterator does not know it and levelIter does call
+	// NextPrefix on such files.
+	return m.upper == nil || m.upper.S < 0
 }
 
 // admissible returns the weighted list of operation kinds allowed in the
@@ -333,16 +344,6 @@ func (m *iterModel) nextPrefix() want {
 
 // ---------------------------------------------------------------------------
 
-// sigBoundsAfterNextPrefix is the signature of a candidate finding (see
-// NOTES.md). The class: SetBounds moves the bounds forward (new lower >= old
-// upper) while the iterator is positioned beyond the first entry >= the old
-// upper bound - reachable only through a NextPrefix that answered nil after
-// jumping over entries >= the upper bound (possibly followed by Prev/Next) -
-// and a SeekGE / SeekPrefixGE follows. The seek takes the monotonic-bounds
-// fast path, starts from the overshot position and misses the entries in
-// between.
-const sigBoundsAfterNextPrefix = "seek-after-forward-setbounds-when-positioned-past-old-upper"
-
 // knownFindingError aborts a case that entered a class excluded as known finding.
 type knownFindingError struct{ sig string }
 
@@ -355,10 +356,6 @@ func excludedSig(err error) (string, bool) {
 		return k.sig, true
 	}
 	return "", false
-}
-
-func knownFindingActive() bool {
-	return evid.FindingActive("C25", sigBoundsAfterNextPrefix)
 }
 
 // iterRunner drives a real iterator and the model side by side.
@@ -382,12 +379,17 @@ type iterRunner struct {
 	// keep references to every key slice handed to the iterator.
 	keep [][]byte
 
-	// pendingClass: the last operation was a SetBounds in the class of
-	// sigBoundsAfterNextPrefix (no seek yet). noExclude: run the class even if
-	// it is listed as a known finding (demonstration plans).
-	pendingClass bool
-	noExclude    bool
-	classHits    int
+	// Monitoring of the monotonic-bounds fast path: monoFwd / overshoot are set
+	// by a SetBounds that moves the bounds forward (new lower >= old upper) after
+	// the iterator was positioned; overshoot additionally means the model
+	// position was beyond the first entry >= the old upper bound (the fast path
+	// assumes this cannot happen; with NextPrefix barred under suffixed upper
+	// bounds it must stay 0). Counted when a SeekGE / SeekPrefixGE follows.
+	monoFwd, overshoot         bool
+	monoFwdSeeks, overshootHit int
+	// noExclude: run classes listed as known findings instead of excluding
+	// them (demonstration / regression plans).
+	noExclude bool
 	// excludeOp, if set, names the known-finding class an operation falls in
 	// ("" if none); consulted for seeks before they are issued.
 	excludeOp func(kind int, k K) string
@@ -505,17 +507,17 @@ func (r *iterRunner) step(op Op) error {
 		}
 	}
 	m := r.m
-	if r.pendingClass && (kind == opSeekGE || kind == opSeekPrefixGE) {
-		r.classHits++
-		if !r.noExclude && knownFindingActive() {
-			return &knownFindingError{sigBoundsAfterNextPrefix}
+	if r.monoFwd && (kind == opSeekGE || kind == opSeekPrefixGE) {
+		r.monoFwdSeeks++
+		if r.overshoot {
+			r.overshootHit++
 		}
 	}
 	if r.pendingSig != "" && (kind == opSeekGE || kind == opSeekPrefixGE || kind == opSeekLT) && !r.noExclude {
 		return &knownFindingError{r.pendingSig}
 	}
 	if kind != opSetBounds {
-		r.pendingClass = false
+		r.monoFwd, r.overshoot = false, false
 		r.pendingSig = ""
 	}
 	r.nOps++
@@ -607,9 +609,9 @@ func (r *iterRunner) step(op Op) error {
 		}
 		// The monotonic-bounds optimization is not applied to virtual tables
 		// (reader_iter_single_lvl.go:445-453).
-		r.pendingClass = m.positioned && m.vlo == nil && m.vhi == nil &&
-			m.upper != nil && lo != nil && cmpK(*m.upper, *lo) <= 0 &&
-			m.pos < len(m.ents) && m.pos > lowerBoundEnt(m.ents, *m.upper)
+		r.monoFwd = m.positioned && m.vlo == nil && m.vhi == nil &&
+			m.upper != nil && lo != nil && cmpK(*m.upper, *lo) <= 0
+		r.overshoot = r.monoFwd && m.pos < len(m.ents) && m.pos > lowerBoundEnt(m.ents, *m.upper)
 		r.pendingSig = ""
 		if r.classOnSetBounds != nil && m.positioned {
 			r.pendingSig = r.classOnSetBounds(m.lower, m.upper, lo, hi)
